@@ -29,7 +29,7 @@ RULE = ("every ordered triple (a,b,c) of units of one category (real space 6, re
         "(LinearAxis/RealSpaceAxis/ScanAxis/ReciprocalSpaceAxis); non-trivial = a != b; distinct = distinct case signature")
 CLAUSES = ["defined", "identity", "inverse", "compose", "axis-inverse", "axis-compose", "axis-factor"]
 QUICK = dict(n=1500, time=40)
-THOROUGH = dict(n=40000, time=60, shards=4)
+THOROUGH = dict(n=320000, time=480, shards=16)
 EXHAUSTIVE = True
 ASSUMPTIONS = ["the unit categories are read from abtem.core.units._unit_categories (energy is excluded: no conversion between "
                "eV and keV is defined or promised); physical correctness of the individual factors is not part of the property"]
